@@ -78,7 +78,7 @@ type vSrvTrace struct {
 	Info    map[string]interface{}   `json:"info,omitempty"`
 }
 
-var vSrvBusySeen int32
+var vSrvBusySeen, vSrvUnsettledSeen int32
 
 var (
 	vSrvPatience = 2 * time.Second
@@ -650,6 +650,7 @@ func (r *vSrvRig) adoptOr() {
 
 func (r *vSrvRig) quiesce() (vSrvPic, error) {
 	deadline := time.Now().Add(20 * time.Second)
+	began := time.Now()
 	var patience time.Time
 	prev, same := "", 0
 	for {
@@ -659,6 +660,11 @@ func (r *vSrvRig) quiesce() (vSrvPic, error) {
 		if ok && (p.busy || !r.settled(p)) {
 			if patience.IsZero() {
 				patience = time.Now().Add(vSrvPatience)
+				if !p.busy && atomic.LoadInt32(&vSrvUnsettledSeen) >= 5 {
+					// sockets that did not settle within the full patience five times already in this
+					// process: believe it sooner from now on (a confirmation run starts afresh)
+					patience = time.Now().Add(vSrvPatience / 20)
+				}
 				if p.busy && atomic.LoadInt32(&vSrvBusySeen) >= 3 {
 					// a loop that handles its connections itself: seen often enough to believe it sooner
 					patience = time.Now().Add(vSrvPatience / 20)
@@ -678,6 +684,8 @@ func (r *vSrvRig) quiesce() (vSrvPic, error) {
 			if same >= 1 {
 				if p.busy {
 					atomic.AddInt32(&vSrvBusySeen, 1)
+				} else if !patience.IsZero() && !time.Now().Before(patience) {
+					atomic.AddInt32(&vSrvUnsettledSeen, 1)
 				}
 				return p, nil
 			}
@@ -687,7 +695,7 @@ func (r *vSrvRig) quiesce() (vSrvPic, error) {
 		if time.Now().After(deadline) {
 			return p, fmt.Errorf("no quiescence within 20s (last picture %q)", p.text)
 		}
-		if patience.IsZero() {
+		if patience.IsZero() && time.Since(began) < 200*time.Millisecond {
 			runtime.Gosched()
 		} else {
 			time.Sleep(200 * time.Microsecond)
@@ -1391,8 +1399,20 @@ func TestVerifServerMain(t *testing.T) {
 	}
 	w := bufio.NewWriter(of)
 	// one schedule at a time: the ORPort address is a package variable of the code under test
+	// a process that has become hopelessly slow (code under test that leaves thousands of goroutines behind)
+	// stops executing; what it has not run is reported as such, what it has run is still judged
+	budget := 240 * time.Second
+	if v, err := strconv.Atoi(os.Getenv("VERIF_SRV_BUDGET_S")); err == nil && v > 0 {
+		budget = time.Duration(v) * time.Second
+	}
+	t0 := time.Now()
 	for _, s := range scheds {
-		tr := vSrvRunSchedule(s)
+		var tr vSrvTrace
+		if time.Since(t0) > budget {
+			tr = vSrvTrace{ID: s.ID, Mode: s.Mode, Events: []map[string]interface{}{}, Note: fmt.Sprintf("not run: the harness process used up its %v (goroutines: %d)", budget, runtime.NumGoroutine())}
+		} else {
+			tr = vSrvRunSchedule(s)
+		}
 		b, _ := json.Marshal(tr)
 		w.Write(b)
 		w.WriteByte('\n')
